@@ -33,6 +33,7 @@ type c07Spec struct {
 	Dir   string // corpus directory ("" = generated)
 	Root  string
 	Files map[string]string
+	Must  []string // lines the compiled model must contain, whatever was compiled before it in this process
 }
 
 type c07Out struct {
@@ -192,6 +193,36 @@ func c07Specs(rnd *Rand, tier string) []*c07Spec {
 	specs = append(specs, &c07Spec{Name: "textpb-import", Root: "main.sysl", Files: map[string]string{
 		"main.sysl":  "import dep.textpb\n\nApp:\n    Ep:\n        Missing <- Nope\n    Ep2:\n        Gone <- Nope\n",
 		"dep.textpb": `apps { key: "Dep" value { name { part: "Dep" } endpoints { key: "E" value { name: "E" stmt {} } } endpoints { key: "F" value { name: "F" stmt { call { target { part: "Missing" } endpoint: "Nope" } } } } } }` + "\n" + `apps { key: "Zed" value { name { part: "Zed" } endpoints { key: "E" value { name: "E" stmt {} } } } }` + "\n"}})
+	// the same import line in files of two directories means two different files
+	twin := map[string]string{
+		"main.sysl":    "import x/part\nimport y/part\n\nRoot:\n    Ep:\n        ...\n",
+		"x/part.sysl":  "import types\n\nXPart:\n    !type P:\n        t <: XTypes.XT\n",
+		"x/types.sysl": "XTypes:\n    !type XT:\n        a <: int\n",
+		"y/part.sysl":  "import types\n\nYPart:\n    !type P:\n        t <: YTypes.YT\n",
+		"y/types.sysl": "YTypes:\n    !type YT:\n        b <: string\n",
+	}
+	specs = append(specs,
+		&c07Spec{Name: "twin-directories-x", Root: "x/part.sysl", Files: twin, Must: []string{`key: "XTypes"`, `key: "XT"`}},
+		&c07Spec{Name: "twin-directories-y", Root: "y/part.sysl", Files: twin, Must: []string{`key: "YTypes"`, `key: "YT"`}},
+		&c07Spec{Name: "twin-directories-both", Root: "main.sysl", Files: twin, Must: []string{`key: "XT"`, `key: "YT"`, `key: "XPart"`, `key: "YPart"`}})
+	// compilations that fail half-way (open bracket, open string, bad indentation) followed by a specification
+	// using native type names and free text: what a failed compilation leaves behind must not reach the next one
+	for i, bad := range []string{
+		"App [~wip, owner=\"x\":\n    Ep:\n        ...\n",
+		"App [~wip, labels=[\"a\", [\"b\":\n    Ep:\n        ...\n",
+		"App:\n    !type T [~x:\n        a <: int\n",
+		"App:\n    Ep (a <: int [~p:\n        ...\n",
+		"App:\n    Ep:\n        Other <- Call [~tls\n",
+		"App:\n    Ep:\n        return ok <: \"text\n",
+		"App:\n    /path/{id <: int:\n        GET:\n            ...\n",
+		"App:\n    !view V(a <: int) -> int:\n        a -> (:\n            out = a +\n",
+	} {
+		specs = append(specs,
+			&c07Spec{Name: fmt.Sprintf("fails-halfway-%d", i), Root: "main.sysl", Files: map[string]string{"main.sysl": bad}},
+			&c07Spec{Name: fmt.Sprintf("natives-after-failure-%d", i), Root: "main.sysl",
+				Files: map[string]string{"main.sysl": "Acct:\n    !type T:\n        a <: int\n        b <: string\n        c <: decimal\n        d <: datetime\n    Ep:\n        look up the balance\n        return ok <: T\n"},
+				Must:  []string{"primitive: INT", "primitive: STRING", "primitive: DECIMAL", "primitive: DATETIME", `action: "look up the balance"`}})
+	}
 	return specs
 }
 
@@ -238,6 +269,7 @@ func runC07(res *Result, tier string, rnd *Rand, replay string) {
 	// ---- sequential baseline and sequential determinism ----
 	base := make([]c07Out, len(specs))
 	unstable := make([]bool, len(specs)) // already reported as differing sequentially
+	dur := make([]time.Duration, len(specs)) // how long one compilation takes in this binary (the race build is slower)
 	seqReps := 6
 	if tier == "thorough" {
 		seqReps = 20
@@ -248,7 +280,9 @@ func runC07(res *Result, tier string, rnd *Rand, replay string) {
 	for i, s := range specs {
 		func() {
 			defer Track(s.input())()
+			t0 := time.Now()
 			base[i] = s.compile()
+			dur[i] = time.Since(t0)
 			for j := 1; j < seqReps; j++ {
 				o := s.compile()
 				if !o.same(base[i]) {
@@ -278,6 +312,15 @@ func runC07(res *Result, tier string, rnd *Rand, replay string) {
 			}
 		default:
 			res.Count("baseline:model")
+		}
+		if base[i].Text != "" || len(s.Must) > 0 {
+			flat := strings.Join(strings.Fields(base[i].Text), " ")
+			for _, must := range s.Must {
+				if !strings.Contains(flat, strings.Join(strings.Fields(must), " ")) {
+					res.Violate(Violation{Sig: "compiled-after-others-lacks-declared", What: "compiled after other specifications in the same process, the model lacks `" + must + "`, which its sources declare (or it did not compile)", Input: s.input(), Got: firstLine(base[i].ErrMsg)})
+					break
+				}
+			}
 		}
 	}
 	// ---- concurrent rounds ----
@@ -314,6 +357,18 @@ func runC07(res *Result, tier string, rnd *Rand, replay string) {
 				}
 			}
 		}
+		// a round is meant to take seconds: with a specification that takes long to compile (a .proto import
+		// under the race detector) fewer goroutines run it, and the time allowed follows the work there is
+		var work time.Duration
+		for g := range idx {
+			work += dur[idx[g]]
+		}
+		for k > 2 && work/time.Duration(procs) > 20*time.Second {
+			work -= dur[idx[k-1]]
+			k--
+			idx = idx[:k]
+		}
+		allowed := 4*time.Minute + 8*work/time.Duration(procs)
 		offs := make([]int, k)
 		for g := range offs {
 			offs[g] = rnd.Intn(2000) // microseconds
@@ -322,7 +377,7 @@ func runC07(res *Result, tier string, rnd *Rand, replay string) {
 		outs := make([]c07Out, k)
 		var wg sync.WaitGroup
 		done := make(chan struct{})
-		desc := map[string]any{"round": round, "k": k, "gomaxprocs": procs, "mode": mode}
+		desc := map[string]any{"round": round, "k": k, "gomaxprocs": procs, "mode": mode, "first": specs[idx[0]].Name}
 		untrack := Track(desc)
 		for g := 0; g < k; g++ {
 			wg.Add(1)
@@ -338,8 +393,10 @@ func runC07(res *Result, tier string, rnd *Rand, replay string) {
 		go func() { wg.Wait(); close(done) }()
 		select {
 		case <-done:
-		case <-time.After(4 * time.Minute):
-			res.Violate(Violation{Sig: "concurrent-compile-hang", What: fmt.Sprintf("%d concurrent compilations did not finish in 4 minutes (GOMAXPROCS %d)", k, procs), Input: desc})
+		case <-time.After(allowed):
+			stacks := make([]byte, 1<<20)
+			stacks = stacks[:runtime.Stack(stacks, true)]
+			res.Violate(Violation{Sig: "concurrent-compile-hang", What: fmt.Sprintf("%d concurrent compilations did not finish in %v (GOMAXPROCS %d; sequentially they take %v)", k, allowed, procs, work), Input: desc, Got: string(stacks)})
 			res.Count("round:hang")
 			untrack()
 			return // the stuck goroutines keep the process busy: stop here
